@@ -117,6 +117,67 @@ fn main() {
                 std::process::exit(3);
             }
         }
+        Some("deepnl") => {
+            // C06 / C13: runs of n consecutive line terminators (LF, CR, CRLF) before, between and after the
+            // records, and a run of n unparsable lines, on a thread with the default 8 MiB stack; the records,
+            // the mapper's answers and the cache bytes must equal those of the file without the blank lines.
+            // Meant for the UNOPTIMISED build of the harness too (a recursion per blank line becomes a loop
+            // under optimisation and would hide there).
+            let n: usize = args[2].parse().expect("lines");
+            let h = std::thread::Builder::new()
+                .stack_size(8 << 20)
+                .spawn(move || {
+                    let plain = "com.A -> a.b:\n    1:3:void run():10:12 -> m\ncom.B -> c:\n    int f -> g\n";
+                    for (name, nl) in [("lf", "\n"), ("cr", "\r"), ("crlf", "\r\n"), ("lfcr", "\n\r")] {
+                        let run = nl.repeat(n);
+                        let spaced = format!(
+                            "{run}com.A -> a.b:{run}    1:3:void run():10:12 -> m{run}com.B -> c:{run}    int f -> g{run}"
+                        );
+                        let m0 = proguard::ProguardMapping::new(plain.as_bytes());
+                        let m1 = proguard::ProguardMapping::new(spaced.as_bytes());
+                        let r0: Vec<String> = m0.iter().map(|r| format!("{:?}", r)).collect();
+                        let r1: Vec<String> = m1.iter().map(|r| format!("{:?}", r)).collect();
+                        let (mut b0, mut b1) = (Vec::new(), Vec::new());
+                        proguard::ProguardCache::write(&m0, &mut b0).expect("write");
+                        proguard::ProguardCache::write(&m1, &mut b1).expect("write");
+                        let mp = proguard::ProguardMapper::new(m1.clone());
+                        let fr: Vec<String> = mp
+                            .remap_frame(&proguard::StackFrame::new("a.b", "m", 2))
+                            .map(|f| format!("{}", f))
+                            .collect();
+                        let s0 = m0.summary();
+                        let s1 = m1.summary();
+                        println!(
+                            "{} records_same={} cache_same={} frame_ok={} valid={} lineinfo={} summary_same={}",
+                            name,
+                            r0 == r1 && r0.len() == 4,
+                            b0 == b1,
+                            fr.len() == 1 && fr[0].contains("com.A.run") && fr[0].contains(":11)"),
+                            m1.is_valid(),
+                            m1.has_line_info(),
+                            (s0.compiler(), s0.compiler_version(), s0.min_api(), s0.class_count(), s0.method_count()) == (s1.compiler(), s1.compiler_version(), s1.min_api(), s1.class_count(), s1.method_count())
+                        );
+                    }
+                    // n bad lines in a row: every one is its own error item, the record after them parses
+                    let bad = format!("{}com.A -> a.b:\n", "-> x\n".repeat(n));
+                    let m = proguard::ProguardMapping::new(bad.as_bytes());
+                    let (mut errs, mut oks) = (0usize, 0usize);
+                    for r in m.iter() {
+                        if r.is_ok() {
+                            oks += 1
+                        } else {
+                            errs += 1
+                        }
+                    }
+                    println!("badrun errs_ok={} oks_ok={}", errs == n, oks == 1);
+                    println!("done");
+                })
+                .unwrap();
+            if h.join().is_err() {
+                println!("PANIC");
+                std::process::exit(3);
+            }
+        }
         Some("run-xver") => {
             let mut input = String::new();
             std::io::stdin().read_to_string(&mut input).unwrap();
